@@ -143,7 +143,15 @@ pub fn materialise_ops(plan: &Plan, a: &AsepriteFile) -> Vec<Op> {
         Workload::None => Vec::new(),
         Workload::Auto(seed) => {
             let mut r = Rng::sub(*seed, "workload");
-            let mut v = observe::full_ops(a, &mut r);
+            // the shape queries of the sweep call accessors themselves: a panic there is C05's
+            // business; C16 then works with the random history only
+            let mut v = match catch_unwind(AssertUnwindSafe(|| observe::full_ops(a, &mut r.clone()))) {
+                Ok(v) => v,
+                Err(_) => {
+                    let _ = crate::exec::take_panic_pub();
+                    Vec::new()
+                }
+            };
             // keep the sweep but bound it, then add a random history with repeats
             r.shuffle(&mut v);
             v.truncate(60);
@@ -448,7 +456,13 @@ pub fn profile_digest_line(ctx: &crate::props::Ctx, i: u64) -> String {
     let map = format::walk(&bytes);
     let costs = costs_for(&map, COST_CAP);
     let mut wr = Rng::new(rseed ^ 0xABCD);
-    let mut ops = observe::full_ops(&f, &mut wr);
+    let mut ops = match catch_unwind(AssertUnwindSafe(|| observe::full_ops(&f, &mut wr.clone()))) {
+        Ok(v) => v,
+        Err(_) => {
+            let (loc, msg) = crate::exec::take_panic_pub();
+            return format!("shape-query-panic {} {}", loc.rsplit('/').next().unwrap_or(""), normalise(&msg));
+        }
+    };
     ops.extend(observe::random_ops(&mut wr, 40, f.num_layers(), f.num_frames()));
     let mut d = Digest::new();
     let mut panics = 0;
